@@ -264,7 +264,7 @@ def family_faults(seed):
             else:
                 ops.append(R("x"))
         fam.append((bool((seed + h_) % 2), ops))
-    return [{"oracle": "faults", "db": ops, "reuse": reuse} for reuse, ops in fam]
+    return [{"oracle": "faults", "db": ops, "reuse": reuse, "modes": ["transient", "sticky", "torn_once"]} for reuse, ops in fam]
 
 
 def family_crash(seed):
@@ -278,9 +278,13 @@ def family_crash(seed):
     F, C = ["flush"], ["compact"]
     R = lambda mode: ["reopen", mode]
     big = "x" * 70000
-    fam = [dict(c) for c in family_faults(seed)]
+    fam = [dict(c) for c in family_faults(seed)]  # (the modes are replaced below)
     fam.append({"oracle": "faults", "db": [P("a", "1"), P("b", big), P("c", "1"), R("x"), P("d", big[:40000]), P("a", "2")], "reuse": True})
     fam.append({"oracle": "faults", "db": [P("a", big), F, P("b", "1"), R("x"), P("c", "1"), C, P("d", "1")], "reuse": bool(seed % 2)})
+    # crash leftovers (orphan table, temp file, superseded manifest) dropped into the directory while
+    # the database is closed, with a non-empty reusable log so that recovery has nothing to install
+    fam.append({"oracle": "faults", "db": [P("a", "1"), P("b", "1"), F, P("c", "1"), ["plant"], P("d", "1")], "reuse": True})
+    fam.append({"oracle": "faults", "db": [P("a", "1"), ["plant"], P("b", "1"), F, C], "reuse": False})
     for c in fam:
         c["modes"] = ["sticky", "torn1", "torn", "tornm1"]
     return fam
@@ -408,8 +412,8 @@ def _search_family(fam, repo):
 
 
 BOUNDS = {
-    "family_crash": "7 whole-database histories (the 5 of family_faults plus 2 with values of 40000 and 70000 bytes, i.e. log records spanning 2-3 blocks of 32 KiB), each re-run once per counted file-system call and per crash mode (the call and everything after it fails; a failing write leaves 0 bytes, 1 byte, half or all but the last byte of its buffer); after the crash point the fault is cleared and the database is reopened, read, written once more and reopened again; in-process state that survives the simulated crash is not reset (only the file system decides what the restarted database sees)",
-    "family_faults": "5 whole-database histories (3 hand-written, 2 pseudo-random per seed; at most 14 operations over 5 keys, with flushes, manual compactions and reopens, reuse_log_files on and off), each re-run once per counted file-system call (about 60 to 170 per history) with that call failing once and with that call and all later ones failing; only wrong results are judged - a panic or a hang of a faulted run is counted as not judged",
+    "family_crash": "9 whole-database histories (the 5 of family_faults, 2 with values of 40000 and 70000 bytes, i.e. log records spanning 2-3 blocks of 32 KiB, and 2 in which an orphan table file, a temp file and a superseded manifest are dropped into the directory while the database is closed), each re-run once per counted file-system call and per crash mode (the call and everything after it fails; a failing write leaves 0 bytes, 1 byte, half or all but the last byte of its buffer); after the crash point the fault is cleared and the database is reopened, read, written once more and reopened again, and the directory is compared with the current version (table files, temp files, manifests; write-ahead logs are not judged); in-process state that survives the simulated crash is not reset (only the file system decides what the restarted database sees)",
+    "family_faults": "5 whole-database histories (3 hand-written, 2 pseudo-random per seed; at most 14 operations over 5 keys, with flushes, manual compactions and reopens, reuse_log_files on and off), each re-run once per counted file-system call (about 60 to 170 per history) with that call failing once, with that call and all later ones failing, and with that call failing once after half of its buffer was written (a torn write that is reported); only wrong results are judged - a panic or a hang of a faulted run is counted as not judged",
     "family_db_views": "whole-database histories of at most 85 operations over 7 keys (8 hand-written + 10 pseudo-random per seed); every live snapshot and the latest state read back through get, both scan directions, seek to every key, a zig-zag walk and 5 cursor scripts per key",
     "family_log_reader": "write-ahead-log byte streams built from the hand-written and seeded append / reopen / truncate / flip scripts of tools/replay.py (records up to 3 blocks)",
     "family_table_get": "one table of 16 entries (4 user keys x 4 versions) at block sizes 1, 64, 150, 4096 with 49 lookups, plus a one-entry table",
